@@ -213,9 +213,9 @@ def prod_config(e, tier="quick", ops=None, acting=None, others=None):
     (listing allowed, no usage store, no blur) vs. every other configuration"""
     bd = bounds(tier)
     if tier == "thorough":
-        # five configurations instead of one: the third bundle is given up for them (K=3 with all
-        # configurations ran past the 3000 s cap of an obligation)
-        bd = dict(bd, K=2)
+        # five configurations instead of one, at the quick tier's store bounds (K=3, M=2 with all
+        # configurations ran past the 3000 s cap of an obligation; K=2, M=2 past 45 minutes)
+        bd = bounds("quick")
     ops = ops or [o for o in OPS if o != "bind2"]
     op = ops[e.choose(len(ops), "op")]
     cmd = make_cmd(e, op)
